@@ -222,6 +222,15 @@ def run(ctx):
                     k_fd(ctx, cfg, {"offset": 5, "data": (bytes(range(256)) * 256)[:65535 - over].hex(), "seg_meta": sm}, model_fed=bool(crc))
                     ok, res = attempt(lambda: bytes(C.build("file_data", cfg, {"offset": 5, "data": "00" * (65536 - over), "seg_meta": sm}).pack()))
                     ctx.check("fd.refusal", not ok, "oversize_data_field_packed", f"crc={crc}", {"cfg": cfg, "data_len": 65536 - over})
+    # File Data PDUs with the CRC flag whose running CRC is exactly 0x0000 / 0xFFFF after the header or after the offset field
+    for target in (0x0000, 0xFFFF):
+        for where in ("header", "offset"):
+            for sm in (None, [2, "a1b2c3"]):
+                cfg = C.rand_cfg(r, segctrl=True, crc=1, seqw=r.choice((2, 4, 8)))
+                got = C.craft_crc_boundary("file_data", cfg, {"offset": C.rand_fss(r, cfg["large"]), "data": rand_bytes(r, 20).hex(), "seg_meta": sm}, where, target)
+                if got is not None:
+                    ctx.table("crc_register_at_boundary", f"{where}/{target:04x}/meta={'y' if sm else 'n'}")
+                    k_fd(ctx, got[0], got[1], model_fed=bool(target))
     # block-boundary sizes: total PDU length / data-field length / file-data length around multiples of 256 ... 32768
     from spverif.core.util import block_boundary_sizes
     j = 0
